@@ -10,7 +10,7 @@ from ..runner import Sub, Violation, guarded, require
 PROPERTY = "C09"
 RULE = ("histories (Hypothesis RuleBasedStateMachine, <= 20 / 40 steps) over a bundle of "
         "generated caption sets - metacharacter texts, styles, layouts in % and px at every "
-        "level, balanced and unbalanced STYLE nodes, near twins of earlier sets written with the same writer object (a break or blanks at an edge, style keys in another order, 1 for True), spans styled through named styles ('class' / 'classes' references whose few names mean different styles from set to set), captions of 16+ lines, empty languages, 1-2 "
+        "level, balanced and unbalanced STYLE nodes, near twins of earlier sets written with the same writer object (a break or blanks at an edge, style keys in another order, 1 for True, language-level layouts with / without padding), spans styled through named styles ('class' / 'classes' references whose few names mean different styles from set to set), captions of 16+ lines, empty languages, 1-2 "
         "languages, plus the caption sets the readers return for the repository's documents - and a pool of writer objects per (class, constructor options). Rules: add a "
         "set; write a set with one of the eight writers on a fresh or a pooled (previously used) "
         "writer object with generated constructor / call options; write an earlier (set, writer, "
@@ -311,7 +311,27 @@ def machine(tier, hook):
             if not cues:
                 return
             c = cues[data.draw(st.integers(0, len(cues) - 1))]
-            kind = data.draw(st.sampled_from(["tail-break", "head-break", "edge-blanks", "style-order", "one-for-true"]))
+            kind = data.draw(st.sampled_from(["tail-break", "head-break", "edge-blanks", "style-order", "one-for-true",
+                                              "lang-padding", "lang-padding"]))
+            if kind == "lang-padding":
+                # the same set with and without padding in its language-level layouts (what one
+                # write derives from a layout must not stay behind for the next one)
+                pad = data.draw(st.sampled_from([[[5, "%"]] * 4, [[2, "%"], None, [10, "%"], None], [[1, "c"], [1, "c"], [2, "c"], [2, "c"]]]))
+                both = []
+                for pd in (pad, None):
+                    t_ = copy.deepcopy(self.st.sets[i])
+                    for l in t_["langs"]:
+                        l["layout"] = {"origin": [[10, "%"], [10, "%"]], "extent": [[80, "%"], [80, "%"]],
+                                       "padding": pd, "align": None, "webvtt": None}
+                    both.append(t_)
+                if data.draw(st.booleans()):
+                    both.reverse()
+                ctor = data.draw(ctor_strategy(name))
+                for t_ in both:
+                    self._do({"op": "new_set", "set": t_})
+                    self._do({"op": "write", "set_i": len(self.st.sets) - 1, "writer": name, "ctor": ctor, "call": {},
+                              "pooled": True})
+                return
             if kind == "tail-break":
                 c["nodes"] = c["nodes"] + [{"br": 1}]
             elif kind == "head-break":
